@@ -99,46 +99,56 @@ structure RCfg where
 
 def RCfg.decode (c : RCfg) (t : Bytes) : Option Bytes := Escape.unescape c.plus t
 
+/-- result of interpreting one primitive token -/
+inductive TokRes (α : Type) where
+  | ok (v : α)
+  | err
+  | unmodelled
+deriving Repr
+
+/-- `ReadString` on the raw token: empty is an error, `''` is the empty string, anything else is
+percent-decoded -/
+def tokString (plus : Bool) (t : Bytes) : Option Bytes :=
+  if t.isEmpty then none
+  else if t == Gen.emptyMarker then some []
+  else Escape.unescape plus t
+
+/-- `ReadInt32` … `ReadBytes` on the raw token: percent-decode, then `strconv` -/
+def tokPrim (plus : Bool) (p : Prim) (t : Bytes) : TokRes Value :=
+  match p with
+  | .str => match tokString plus t with | some b => .ok (.str b) | none => .err
+  | .bytes => match tokString plus t with | some b => .ok (.bytes b) | none => .err
+  | p =>
+    match Escape.unescape plus t with
+    | none => .err
+    | some d =>
+      match p with
+      | .i32 => match Strconv.parseInt 32 d with | some v => .ok (.i32 v) | none => .err
+      | .i64 => match Strconv.parseInt 64 d with | some v => .ok (.i64 v) | none => .err
+      | .bool => match Strconv.parseBool d with | some v => .ok (.bool v) | none => .err
+      | .f32 => match Strconv.parseFloat Strconv.f32 d with
+        | .ok b => .ok (.f32 b) | .unmodelled => .unmodelled | _ => .err
+      | .f64 => match Strconv.parseFloat Strconv.f64 d with
+        | .ok b => .ok (.f64 b) | .unmodelled => .unmodelled | _ => .err
+      | _ => .err
+
 /-- `ReadString` -/
 def readString (c : RCfg) (s : RS) : Res Bytes :=
   match readPrimTok s with
   | .ok t s' =>
-    if t.isEmpty then .err .syntax
-    else if t == Gen.emptyMarker then .ok [] s'
-    else match c.decode t with
-      | some b => .ok b s'
-      | none => .err .syntax
-  | .err e => .err e | .panic => .panic | .fuel => .fuel | .unmodelled => .unmodelled
-
-/-- `readAndDecodePrimitiveFieldValue` -/
-def readDecoded (c : RCfg) (s : RS) : Res Bytes :=
-  match readPrimTok s with
-  | .ok t s' =>
-    match c.decode t with
+    (match tokString c.plus t with
     | some b => .ok b s'
-    | none => .err .syntax
+    | none => .err .syntax)
   | .err e => .err e | .panic => .panic | .fuel => .fuel | .unmodelled => .unmodelled
 
 def readPrim (c : RCfg) (p : Prim) (s : RS) : Res Value :=
-  match p with
-  | .str => match readString c s with
-    | .ok b s' => .ok (.str b) s'
-    | .err e => .err e | .panic => .panic | .fuel => .fuel | .unmodelled => .unmodelled
-  | .bytes => match readString c s with
-    | .ok b s' => .ok (.bytes b) s'
-    | .err e => .err e | .panic => .panic | .fuel => .fuel | .unmodelled => .unmodelled
-  | p => match readDecoded c s with
-    | .ok t s' =>
-      (match p with
-      | .i32 => match Strconv.parseInt 32 t with | some v => .ok (.i32 v) s' | none => .err .syntax
-      | .i64 => match Strconv.parseInt 64 t with | some v => .ok (.i64 v) s' | none => .err .syntax
-      | .bool => match Strconv.parseBool t with | some v => .ok (.bool v) s' | none => .err .syntax
-      | .f32 => match Strconv.parseFloat Strconv.f32 t with
-        | .ok b => .ok (.f32 b) s' | .unmodelled => .unmodelled | _ => .err .syntax
-      | .f64 => match Strconv.parseFloat Strconv.f64 t with
-        | .ok b => .ok (.f64 b) s' | .unmodelled => .unmodelled | _ => .err .syntax
-      | _ => .err .syntax)
-    | .err e => .err e | .panic => .panic | .fuel => .fuel | .unmodelled => .unmodelled
+  match readPrimTok s with
+  | .ok t s' =>
+    (match tokPrim c.plus p t with
+    | .ok v => .ok v s'
+    | .err => .err .syntax
+    | .unmodelled => .unmodelled)
+  | .err e => .err e | .panic => .panic | .fuel => .fuel | .unmodelled => .unmodelled
 
 def atMap (s : RS) : Bool := s.rest.head? == some 40
 def atArray (s : RS) : Bool := Gen.listPrefix.isPrefixOf s.rest && s.rest.length > Gen.listPrefix.length
